@@ -4,6 +4,9 @@
 #[allow(dead_code, unused_imports, unused_macros)]
 #[path = "c02/build.rs"]
 mod view_build;
+// op 14: views over zero-sized-element leaves (dimension lengths up to usize::MAX in O(1) memory)
+#[path = "c16/zst.rs"]
+mod zst;
 
 use crate::guarded;
 use crate::sx::*;
@@ -441,6 +444,12 @@ pub fn run(args: &[Sx]) -> Sx {
                 return bad_case();
             };
             adaptor_case(&args[1], &probes)
+        }
+        (14, 3) => {
+            let Some(probes) = args[2].list().and_then(|p| p.iter().map(|x| x.usizes()).collect::<Option<Vec<_>>>()) else {
+                return bad_case();
+            };
+            zst::zst_case(&args[1], &probes)
         }
         (1, 3) => {
             let (Some(shape), Some(len)) = (args[1].pairs_usize(), args[2].usize()) else { return bad_case() };
